@@ -533,3 +533,127 @@ def c18_oracle(case, io):
         if len(fails) > 6:
             break
     return fails[:6]
+
+
+# ---------------------------------------------------------------------------------------------- C05 in N dimensions
+def c05_gen(rng):
+    """two (three) row sets over the same axes -- static (h() at once) or adaptive fixed-width (empty + fill_n) -- added in both
+    orders and compared with the histogram of the rows together; weights absent / int / dyadic (bit-exact) or DECIMAL
+    (k/10: sums are rounded -- tolerance stream; what matters there is that the addition is accepted and nothing is lost);
+    then the refusals: another dimension, other bins (static), another grid (adaptive)."""
+    d = rng.choice([2, 2, 3])
+    adaptive = rng.random() < 0.5
+    wkind = rng.choice(["none", "none", "int", "dyadic", "decimal", "decimal"])
+    if adaptive:
+        ws = [rng.choice([1.0, 0.5, 2.0, 0.25]) for _ in range(d)]
+        axes = [gen1.fixed_json(w, 0, 0, adaptive=True) for w in ws]
+
+        def rows(n, off):
+            return [[(off[i] + rng.randint(0, 12)) * ws[i] + rng.choice([0.25, 0.5, 0.0]) * ws[i] for i in range(d)] for _ in range(n)]
+        offs = [[rng.choice([0, 0, 6, -9]) for _ in range(d)] for _ in range(3)]
+        sets = [rows(rng.choice([0, 1, 3, 6]), offs[k]) for k in range(3)]
+    else:
+        axs = [gennd.axis_binning(rng, maxbins=4) for _ in range(d)]
+        axes = [a[0] for a in axs]
+        sets = [gennd.rows_for(rng, [a[1] for a in axs], rng.choice([0, 1, 3, 6])) for _ in range(3)]
+        sets = [[r for r in st if all(v is not None for v in r)] for st in sets]
+
+    def wts(n):
+        if wkind == "none":
+            return None
+        if wkind == "int":
+            return [rs(rng.randint(0, 4)) for _ in range(n)]
+        if wkind == "dyadic":
+            return [rs(rng.randint(0, 16) / 4) for _ in range(n)]
+        return [rs(rng.randint(1, 30) / 10) for _ in range(n)]
+    wsets = [wts(len(st)) for st in sets]
+    src = {"d": d, "axes": axes, "adaptive": adaptive, "sets": [gennd.enc_rows(st) for st in sets], "wsets": wsets,
+           "wk": None if wkind == "none" else ("int64" if wkind == "int" else "float64"), "wkind": wkind}
+    return c05_build(src)
+
+
+def c05_build(src):
+    ops = []
+    axes, wk = src["axes"], src["wk"]
+
+    def mk(out, idxs):
+        rows, ws = [], []
+        for i in idxs:
+            rows += src["sets"][i]
+            ws += (src["wsets"][i] if src["wsets"][i] is not None else [])
+        w = ws if wk is not None else None
+        if src["adaptive"]:
+            ops.append({"op": "empty", "out": out, "axes": axes})
+            ops.append({"op": "fill_n", "h": out, "rows": rows, "ws": w, "wkind": wk})
+        else:
+            ops.append({"op": "construct", "out": out, "axes": axes, "rows": rows, "weights": w, "wkind": wk})
+    mk(0, [0]); mk(1, [1]); mk(2, [2]); mk(3, [0, 1]); mk(4, [0, 1, 2])
+    ops.append({"op": "add", "a": 0, "b": 1, "out": 5})
+    ops.append({"op": "add", "a": 1, "b": 0, "out": 6})
+    ops.append({"op": "add", "a": 5, "b": 2, "out": 7})
+    ops.append({"op": "add", "a": 1, "b": 2, "out": 8})
+    ops.append({"op": "add", "a": 0, "b": 8, "out": 9})
+    ops.append({"op": "iadd", "h": 2, "o": 3})          # C += (A and B): in place
+    # refusals: another dimension
+    ops.append({"op": "projection", "h": 0, "axes": [0], "out": 10, "maybe": True})
+    ops.append({"op": "add", "a": 0, "b": 10, "out": 11, "must_refuse": "dimension"})
+    return {"kind": "histn", "fuel": 64, "ops": ops, "tolerance": src["wkind"] == "decimal",
+            "tags": ["nd", f"d:{src['d']}", "adaptive" if src["adaptive"] else "static", "weights:" + src["wkind"]], "src": src}
+
+
+def c05_shrink(case):
+    import copy
+    src = case["src"]
+    for i in range(3):
+        for j in range(len(src["sets"][i])):
+            s2 = copy.deepcopy(src)
+            del s2["sets"][i][j]
+            if s2["wsets"][i] is not None:
+                del s2["wsets"][i][j]
+            yield c05_build(s2)
+
+
+def c05_oracle(case, io):
+    outs, ops = io["outs"], case["ops"]
+    src = case["src"]
+    fails = []
+    for k, op in enumerate(ops):
+        if op.get("must_refuse"):
+            if outs[k]["ret"] != "REFUSED":
+                fails.append(f"accepted_incompatible: histograms of different {op['must_refuse']} were added")
+        elif outs[k]["ret"] == "REFUSED" and not op.get("maybe"):
+            return [f"refused_valid: step {k} {({x: y for x, y in op.items() if x not in ('axes', 'rows', 'ws', 'weights')})} was refused: "
+                    + "; ".join(io["log"][:2])]
+    regs = outs[-1]["regs"]
+    tol = Fraction(1, 10**9) if src["wkind"] == "decimal" else Fraction(0)
+
+    def same(x, y, what):
+        if regs[x]["bins"] != regs[y]["bins"]:
+            fails.append(f"sum_differs: {what}: bins differ")
+            return
+        for f in ("freq", "err2"):
+            a, b = [Fraction(v) for v in regs[x][f]], [Fraction(v) for v in regs[y][f]]
+            if len(a) != len(b) or any(abs(p - q) > tol * (1 + abs(q)) for p, q in zip(a, b)):
+                fails.append(f"sum_differs: {what}: {f} differ: {regs[x][f][:8]} vs {regs[y][f][:8]}")
+                return
+        ma, mb = regs[x]["missed"], regs[y]["missed"]
+        if (ma is None) != (mb is None) or (ma is not None and abs(Fraction(ma) - Fraction(mb)) > tol * (1 + abs(Fraction(mb))) + tol):
+            fails.append(f"sum_differs: {what}: missed {ma} vs {mb}")
+    same(5, 3, "A+B vs h(A and B)")
+    same(6, 5, "B+A vs A+B")
+    same(7, 9, "(A+B)+C vs A+(B+C)")
+    same(7, 4, "(A+B)+C vs h(all)")
+    same(2, 4, "C += h(A and B) vs h(all)")
+    # nothing lost
+    tot = lambda r: Fraction(regs[r]["total"]) + (Fraction(regs[r]["missed"]) if regs[r]["missed"] is not None else 0)
+    if abs(tot(5) - tot(0) - tot(1)) > tol * (1 + abs(tot(5))) + tol:
+        fails.append(f"weight_lost: total + missed of A+B is {tot(5)}, of A and B {tot(0)} + {tot(1)}")
+    # the operands are never modified
+    first_add = next(k for k, op in enumerate(ops) if op["op"] == "add")
+    before = outs[first_add - 1]["regs"]
+    for i in (0, 1):
+        b0 = {k: v for k, v in before[i].items() if not k.startswith("_")}
+        b1 = {k: v for k, v in regs[i].items() if not k.startswith("_")}
+        if b0 != b1:
+            fails.append(f"operand_modified: operand {i} changed by the additions: fields {[f for f in b0 if b0[f] != b1.get(f)]}")
+    return fails[:6]
